@@ -109,6 +109,10 @@ type fconn struct {
 	realtime bool
 	dlTimer  *time.Timer
 	dlSets   int
+
+	// the client has stopped reading and the kernel buffers are full: a Write parks until the connection is closed
+	stall   bool
+	parkedW int
 }
 
 func newFconn(local, remote net.Addr, chunk int, realtime bool) *fconn {
@@ -157,6 +161,14 @@ func (c *fconn) Write(b []byte) (int, error) {
 	}
 	if c.cliClosed {
 		return 0, io.ErrClosedPipe
+	}
+	if c.stall {
+		c.parkedW++
+		for !c.srvClosed && !c.cliClosed {
+			c.cond.Wait()
+		}
+		c.parkedW--
+		return 0, net.ErrClosed
 	}
 	c.out = append(c.out, b...)
 	return len(b), nil
